@@ -1,0 +1,55 @@
+//go:build verif
+
+package verifhook
+
+import (
+	"github.com/taurusgroup/multi-party-sig/internal/bip32"
+	"github.com/taurusgroup/multi-party-sig/internal/elgamal"
+	"github.com/taurusgroup/multi-party-sig/internal/mta"
+	"github.com/taurusgroup/multi-party-sig/internal/ot"
+	"github.com/taurusgroup/multi-party-sig/internal/test"
+)
+
+// Re-exports of internal/ functions for the external verification harness (build tag verif; no behaviour added).
+var (
+	MtaProveAffG = mta.ProveAffG
+	MtaProveAffP = mta.ProveAffP
+
+	Bip32DeriveScalar = bip32.DeriveScalar
+
+	TestGenerateConfig = test.GenerateConfig
+	TestPartyIDs       = test.PartyIDs
+	TestRounds         = test.Rounds
+
+	ElGamalEncrypt = elgamal.Encrypt
+	ElGamalEmpty   = elgamal.Empty
+
+	OTRandomOTSetupSend       = ot.RandomOTSetupSend
+	OTRandomOTSetupReceive    = ot.RandomOTSetupReceive
+	OTNewRandomOTReceiver     = ot.NewRandomOTReceiver
+	OTNewRandomOTSender       = ot.NewRandomOTSender
+	OTNewCorreOTSetupSender   = ot.NewCorreOTSetupSender
+	OTNewCorreOTSetupReceiver = ot.NewCorreOTSetupReceiver
+	OTCorreOTSend             = ot.CorreOTSend
+	OTCorreOTReceive          = ot.CorreOTReceive
+	OTExtendedOTSend          = ot.ExtendedOTSend
+	OTExtendedOTReceive       = ot.ExtendedOTReceive
+	OTNewAdditiveOTSender     = ot.NewAdditiveOTSender
+	OTNewAdditiveOTReceiver   = ot.NewAdditiveOTReceiver
+	OTNewMultiplySender       = ot.NewMultiplySender
+	OTNewMultiplyReceiver     = ot.NewMultiplyReceiver
+
+	OTBitAt         = ot.VerifBitAt
+	OTTransposeBits = ot.VerifTransposeBits
+	OTAccumulate    = ot.VerifAccumulate
+	OTFieldEq       = ot.VerifFieldEq
+	OTMakeGadget    = ot.VerifMakeGadget
+	OTEncode        = ot.VerifEncode
+)
+
+type (
+	TestRule            = test.Rule
+	ElGamalCiphertext   = elgamal.Ciphertext
+	CorreOTSendSetup    = ot.CorreOTSendSetup
+	CorreOTReceiveSetup = ot.CorreOTReceiveSetup
+)
